@@ -18,6 +18,9 @@ from vf import lib
 from vf import histories as hs
 from vf.sym import S, SI
 
+# sat-side instance search only (never decides "holds"; every model is replayed on the real code)
+hs.install_int_aware_search()
+
 ASSUMPTIONS = [
     "exact real/complex arithmetic (floating-point rounding of tensor arithmetic outside the claim)",
     "end times are start + e*dt with dt in {1, 0.5} and integer start, so that (end-start)/dt is exact: the "
@@ -152,6 +155,59 @@ class H1MeanField(Case):
         return obs
 
 
+def _tebd_env(N):
+    extra = dict(hs.LINEAR_STUBS)
+    extra.update(hs.step_shadows("oqupy.pt_tebd", -1, N + 1, ("isinstance",)))
+    extra.update(hs.step_shadows("oqupy.dynamics", -1, N + 1, ("float", "complex")))
+    return {"noconj": True, "extra": extra}
+
+
+_TEBD_FUNCS = ("PtTebd.__init__", "PtTebd.initialize", "PtTebd.compute", "PtTebd.compute_step", "PtTebd._apply_controls",
+               "PtTebd._append_results", "PtTebd._init_results", "PtTebd.time", "PtTebd.get_results", "PtTebd.get_augmented_mps",
+               "ChainControl.add_single_site_control", "ChainControl.get_single_site_controls", "AugmentedMPS.__init__", "Dynamics.add")
+_TEBD_STUBS = ("PtTebdBackend -> LinearBackend: every back-end call is an order-sensitive symbolic linear map of exactly the "
+               "arguments the real call receives (gate layer object, process-tensor slice index step-1, control matrix, cap index)",
+               "compute_tebd_propagator -> two symbolic gate layers")
+
+
+def _tebd_controls(inp, spec):
+    return [(inp.arr("C%d" % i, (4, 4)), step, post) for i, (step, post) in enumerate(spec)]
+
+
+class H1PtTebd(Case):
+    """PtTebd.compute(e1); compute(e2); compute(e3) == single compute(max): PtTebd's own step loop, control
+    schedule (pre/post), process-tensor slice index, time stamps and result lists (back-end: LinearBackend)."""
+    functions = _TEBD_FUNCS
+    stubs = _TEBD_STUBS
+    real_env = hs.LINEAR_STUBS
+
+    def __init__(self, N, ncalls=3, dt=0.5):
+        self.N, self.ncalls, self.dt = N, ncalls, dt
+        self.id = "H1/pt_tebd_steplogic/N%d_c%d" % (N, ncalls)
+        self.bounds = {"N": N, "calls": ncalls, "sites": 2, "controls": "pre@1, post@2, pre@N"}
+        self.env = _tebd_env(N)
+
+    def run(self, inp):
+        N, dt = self.N, self.dt
+        hs.LinearBackend.model = hs.linear_model(inp, N)
+        v0 = inp.arr("v", (4,))
+        start = inp.int("start", -2, 2)
+        ctr = _tebd_controls(inp, [(1, False), (2, True), (N, False)])
+        es = [inp.int("e%d" % i, 0, N) for i in range(self.ncalls)]
+        obj = hs.make_pt_tebd(v0, hs.as_time(start, 0, dt), 0, dt, ctr)
+        for e in es:
+            obj.compute(e, progress_type="silent")
+        ref = hs.make_pt_tebd(v0, hs.as_time(start, 0, dt), 0, dt, ctr)
+        ref.compute(hs.sym_maximum(es), progress_type="silent")
+        g, r = hs.tebd_lists(obj.get_results()), hs.tebd_lists(ref.get_results())
+        obs = []
+        for nm, a, b in zip(("time", "norm", "dynamics times", "dynamics states"), g, r):
+            obs += _eq_lists(nm, a, b, "split_vs_single")
+        obs.append(Ob.holds("number of time points = max target + 1", hs.sym_maximum(es) + 1 == len(r[0]), key="grid"))
+        obs += [Ob.eq("time[%d] = start + %d*dt" % (i, i), r[0][i], hs.as_time(start, i, dt), key="grid") for i in range(len(r[0]))]
+        return obs
+
+
 # --------------------------------------------------------------------------
 # H2  fault injection
 # --------------------------------------------------------------------------
@@ -168,7 +224,7 @@ class H2Tempo(Case):
 
     def __init__(self, N, K, dt=0.5, pre=True):
         self.N, self.K, self.dt, self.pre = N, K, dt, pre
-        self.id = "H2/tempo_fault/N%d_K%s%s" % (N, K, "" if pre else "_single")
+        self.id = "H2/tempo_hamiltonian_fault/N%d_K%s%s" % (N, K, "" if pre else "_single")
         self.bounds = {"d": 2, "N": N, "dkmax": K, "calls": "compute(e1); compute(N); each retried once after the fault"}
         self.env = _tempo_env(N)
         self.timeout_s = 300
@@ -230,9 +286,10 @@ class H2MeanField(Case):
     stubs = _MF_STUBS
     assumptions = ("the failure is transient: the user callable raises exactly once",)
 
-    def __init__(self, kind, N, K, dt=0.5):
-        self.kind, self.N, self.K, self.dt = kind, N, K, dt
-        self.id = "H2/meanfield_fault_%s/N%d_K%s" % (kind, N, K)
+    def __init__(self, kind, N, K, dt=0.5, pre=True):
+        self.kind, self.N, self.K, self.dt, self.pre = kind, N, K, dt, pre
+        self.id = "H2/meanfield_fault_%s/N%d_K%s%s" % (kind, N, K, "" if pre else "_single")
+        self.first_timeout_s = 2
         self.bounds = {"d": 2, "systems": 1, "N": N, "dkmax": K, "fault": "call index mod 4 in %s" % (_MF_KINDS[kind],),
                        "calls": "compute(e1); compute(N); each retried once after the fault"}
         self.env = _tempo_env(N)
@@ -244,11 +301,11 @@ class H2MeanField(Case):
         step_of_fault = inp.int("fstep", 0, N - 1)
         which = inp.int("fcall", _MF_KINDS[self.kind][0], _MF_KINDS[self.kind][1])
         fault = 4 * step_of_fault + which
-        e1 = inp.int("e1", 0, N)
+        targets = ([inp.int("e1", 0, N)] if self.pre else []) + [N]
         plan = hs.FaultPlan(fault)
         t0 = hs.as_time(start, 0, dt)
         obj = hs.make_mean_field_tempo(d, K, rho0, infl, A1, B1, A2, t0, dt, f0, eom, plan)
-        out = _retry_history(obj, [e1, N], lambda e: hs.as_time(start, e, dt))
+        out = _retry_history(obj, targets, lambda e: hs.as_time(start, e, dt))
         if out is not None:
             return out
         ref = hs.make_mean_field_tempo(d, K, rho0, infl, A1, B1, A2, t0, dt, f0, eom)
@@ -285,7 +342,8 @@ class H3PtTempo(Case):
 
     def __init__(self, seq, N, K):
         self.seq, self.N, self.K = seq, N, K
-        self.id = "H3/pt_tempo_%s/N%d_K%s" % (seq, N, K)
+        grp = "compute_when_finished" if seq in ("compute_twice", "get_compute") else "repeat"
+        self.id = "H3/pt_tempo_%s/%s_N%d_K%s" % (grp, seq, N, K)
         self.bounds = {"d": 2, "N": N, "dkmax": K, "calls": list(_PT_SEQS[seq])}
         self.timeout_s = 300
 
@@ -302,7 +360,7 @@ class H3PtTempo(Case):
                 else:
                     got = obj.get_process_tensor(progress_type="silent")
                     if first is None:
-                        first = hs.pt_tensors(got), [got.get_cap_tensor(k) for k in range(N + 1)]
+                        first = hs.pt_invariants(got)
             except Exception as ex:       # noqa
                 if i == 0:
                     raise
@@ -310,9 +368,9 @@ class H3PtTempo(Case):
                                  key="repeated_call_raises")]
         ref = hs.make_pt_tempo(d, N, K, infl).get_process_tensor(progress_type="silent")
         obs = [Ob.holds("length", len(got) == N, key="tensors"), Ob.holds("same object", got is obj._process_tensor, key="tensors")]
-        obs += _eq_lists("mpo", hs.pt_tensors(got), hs.pt_tensors(ref), "tensors")
-        obs += _eq_lists("caps", [got.get_cap_tensor(k) for k in range(N + 1)], [ref.get_cap_tensor(k) for k in range(N + 1)], "tensors")
-        obs += _eq_lists("mpo as first returned", hs.pt_tensors(got), first[0], "tensors")
+        # compared through the gauge-invariant contractions M_0..M_{k-1}.cap_k (see hs.pt_invariants)
+        obs += _eq_lists("pt", hs.pt_invariants(got), hs.pt_invariants(ref), "tensors")
+        obs += _eq_lists("pt as first returned", hs.pt_invariants(got), first, "tensors")
         return obs
 
 
@@ -363,12 +421,173 @@ class H3Gibbs(Case):
         return obs
 
 
+# --------------------------------------------------------------------------
+# H4  restart of a chain
+# --------------------------------------------------------------------------
+_RESTART_CONTROLS = {
+    "none": lambda r, N: [],
+    # controls anywhere except a pre-measurement control AT the restart step
+    "other": lambda r, N: [(r, True), (r + 1, False), (0, False), (r - 1, True)],
+    # dedicated: a pre-measurement control scheduled at the restart step itself
+    "pre_at_restart_step": lambda r, N: [(r, False)],
+}
+
+
+class H4Restart(Case):
+    """B.compute(r); C = PtTebd(B.get_augmented_mps(), start_step=r, start_time=B.time(r), same chain, process
+    tensors, parameters and chain control); C.compute(N)  ==  A.compute(N) on steps r..N (time, norm, states)."""
+    functions = _TEBD_FUNCS
+    stubs = _TEBD_STUBS
+    real_env = hs.LINEAR_STUBS
+
+    def __init__(self, N, controls, dt=0.5):
+        self.N, self.controls, self.dt = N, controls, dt
+        self.id = ("H4/restart_pre_control_at_restart_step/steplogic_N%d" % N if controls == "pre_at_restart_step"
+                   else "H4/restart_steplogic_%s/N%d" % (controls, N))
+        self.bounds = {"N": N, "restart_step": "1..N-1 (symbolic)", "sites": 2, "controls": controls}
+        self.env = _tebd_env(N)
+
+    def run(self, inp):
+        N, dt = self.N, self.dt
+        hs.LinearBackend.model = hs.linear_model(inp, N)
+        v0 = inp.arr("v", (4,))
+        start = inp.int("start", -2, 2)
+        r = int(inp.int("r", 1, N - 1))          # concretised: one path per restart step
+        ctr = _tebd_controls(inp, _RESTART_CONTROLS[self.controls](r, N))
+        t0 = hs.as_time(start, 0, dt)
+        A = hs.make_pt_tebd(v0, t0, 0, dt, ctr)
+        A.compute(N, progress_type="silent")
+        B = hs.make_pt_tebd(v0, t0, 0, dt, ctr)
+        B.compute(r, progress_type="silent")
+        C = hs.make_pt_tebd(None, B.time(r), r, dt, ctr, mps=B.get_augmented_mps())
+        C.compute(N, progress_type="silent")
+        a, c = hs.tebd_lists(A.get_results()), hs.tebd_lists(C.get_results())
+        obs = []
+        for nm, x, y in zip(("time", "norm", "dynamics times", "dynamics states"), c, a):
+            obs += _eq_lists(nm, x, y[r:], "restart_vs_uninterrupted")
+        return obs
+
+
+def _symbolic_chain(inp, N, sites, chi, ptbond):
+    """symbolic gate layers (even / odd bonds), process tensors, product initial state"""
+    from oqupy.mps_mpo import GateLayer, NnGate, TebdPropagator, AugmentedMPS
+    import checks.c03 as c03
+    layers = []
+    for par in (0, 1):
+        gates = []
+        for b in range(par, sites - 1, 2):
+            gates.append(NnGate(b, (inp.arr("gl%d_%d" % (par, b), (4, 4, chi)), inp.arr("gr%d_%d" % (par, b), (chi, 4, 4)))))
+        layers.append(GateLayer(True, gates))
+    hs.PROPAGATOR["p"] = TebdPropagator(layers)
+    pts = [c03.build_pt(inp, "e%d" % s, 2, N, ptbond, 4, False)[0] for s in range(sites)]
+    g = [inp.arr("g%d" % s, (4,)) for s in range(sites)]
+    return pts, (lambda: AugmentedMPS(list(g)))
+
+
+class H4RestartReal(Case):
+    """Restart on the REAL PtTebdBackend: gammas/lambdas exported by get_augmented_mps() after step r, a new
+    PtTebd with start_step=r (process-tensor slice and cap indices, time stamps) == uninterrupted run."""
+    functions = _TEBD_FUNCS + ("PtTebdBackend.*", "_apply_nn_gate", "_invert_lambda", "SimpleProcessTensor.get_mpo_tensor",
+                               "SimpleProcessTensor.get_cap_tensor")
+    stubs = ("tensornetwork numpy backend svd -> exact non-truncating factorisation (lambdas become identities)",
+             "tensornetwork.contractors.optimal -> same contraction in list order (deterministic association)",
+             "compute_tebd_propagator -> symbolic nearest-neighbour gate layers (gate bond chi)",
+             "process tensors: arbitrary symbolic SimpleProcessTensor per site")
+    real_env = hs.TEBD_REAL_STUBS
+
+    def __init__(self, N, r, sites=2, chi=1, ptbond=1, controls=False, dt=0.5):
+        self.N, self.r, self.sites, self.chi, self.ptbond, self.controls, self.dt = N, r, sites, chi, ptbond, controls, dt
+        tail = "N%d_r%d_s%d_chi%d_b%d" % (N, r, sites, chi, ptbond)
+        if controls == "pre_at_r":
+            self.id = "H4/restart_pre_control_at_restart_step/real_backend_" + tail
+            self.first_timeout_s = 2
+        else:
+            self.id = "H4/restart_real_backend/%s%s" % (tail, "_ctrl" if controls else "")
+        self.bounds = {"N": N, "restart_step": r, "sites": sites, "gate_bond": chi, "pt_bond": ptbond, "d": 2,
+                       "controls": {False: "none", True: "post@r, pre@r+1", "pre_at_r": "pre@r"}[controls]}
+        self.env = hs.tebd_real_env(N)
+        self.env["extra"].update(hs.TEBD_REAL_STUBS)
+        self.timeout_s = 300
+        self.tol = 1e-6
+
+    def run(self, inp):
+        N, r, dt = self.N, self.r, self.dt
+        pts, mk_mps = _symbolic_chain(inp, N, self.sites, self.chi, self.ptbond)
+        start = inp.int("start", -2, 2)
+        ctr = []
+        if self.controls == "pre_at_r":
+            ctr = [(inp.arr("C0", (4, 4)), 0, r, False)]
+        elif self.controls:
+            ctr = [(inp.arr("C0", (4, 4)), 0, r, True), (inp.arr("C1", (4, 4)), self.sites - 1, r + 1, False)]
+        t0 = hs.as_time(start, 0, dt)
+        A = hs.make_pt_tebd_real(mk_mps(), pts, None, t0, 0, dt, ctr, self.sites)
+        ra = A.compute(N, progress_type="silent")
+        B = hs.make_pt_tebd_real(mk_mps(), pts, None, t0, 0, dt, ctr, self.sites)
+        B.compute(r, progress_type="silent")
+        C = hs.make_pt_tebd_real(B.get_augmented_mps(), pts, None, B.time(r), r, dt, ctr, self.sites)
+        rc = C.compute(N, progress_type="silent")
+        obs = _eq_lists("time", list(rc["time"]), list(ra["time"])[r:], "restart_vs_uninterrupted")
+        obs += _eq_lists("norm", list(rc["norm"]), list(ra["norm"])[r:], "restart_vs_uninterrupted")
+        for k in ra["dynamics"]:
+            obs += _eq_lists("states of %s" % (k,), list(rc["dynamics"][k]._states), list(ra["dynamics"][k]._states)[r:],
+                             "restart_vs_uninterrupted")
+        return obs
+
+
+class H1PtTebdReal(Case):
+    """PtTebd.compute(e1); compute(e2) == compute(max) on the REAL PtTebdBackend (symbolic gates, process tensors)."""
+    functions = H4RestartReal.functions
+    stubs = H4RestartReal.stubs
+    real_env = hs.TEBD_REAL_STUBS
+
+    def __init__(self, N, sites=2, chi=1, ptbond=1, dt=0.5):
+        self.N, self.sites, self.chi, self.ptbond, self.dt = N, sites, chi, ptbond, dt
+        self.id = "H1/pt_tebd_real_backend/N%d_s%d_chi%d_b%d" % (N, sites, chi, ptbond)
+        self.bounds = {"N": N, "calls": 2, "sites": sites, "gate_bond": chi, "pt_bond": ptbond, "d": 2}
+        self.env = hs.tebd_real_env(N)
+        self.env["extra"].update(hs.TEBD_REAL_STUBS)
+        self.timeout_s = 300
+        self.tol = 1e-6
+
+    def run(self, inp):
+        N, dt = self.N, self.dt
+        pts, mk_mps = _symbolic_chain(inp, N, self.sites, self.chi, self.ptbond)
+        start = inp.int("start", -2, 2)
+        es = [inp.int("e%d" % i, 0, N) for i in range(2)]
+        t0 = hs.as_time(start, 0, dt)
+        obj = hs.make_pt_tebd_real(mk_mps(), pts, None, t0, 0, dt, (), self.sites)
+        for e in es:
+            obj.compute(e, progress_type="silent")
+        ref = hs.make_pt_tebd_real(mk_mps(), pts, None, t0, 0, dt, (), self.sites)
+        ref.compute(hs.sym_maximum(es), progress_type="silent")
+        rg, rr = obj.get_results(), ref.get_results()
+        obs = _eq_lists("time", list(rg["time"]), list(rr["time"]), "split_vs_single")
+        obs += _eq_lists("norm", list(rg["norm"]), list(rr["norm"]), "split_vs_single")
+        for k in rr["dynamics"]:
+            obs += _eq_lists("states of %s" % (k,), list(rg["dynamics"][k]._states), list(rr["dynamics"][k]._states), "split_vs_single")
+        return obs
+
+
 def cases(tier):
     cs = []
-    cs += [H1Tempo(4, 1), H1Tempo(3, None, dt=1.0, ncalls=2)]
-    cs += [H1MeanField(3, 1)]
-    cs += [H2Tempo(3, 1)]
-    cs += [H2MeanField(k, 2, 1) for k in _MF_KINDS]
-    cs += [H3Gibbs(2, 'zero'), H3Gibbs(3, 'zero'), H3Gibbs(3, 'sym'), H3Gibbs(4, 'zero', calls=3)]
+    # H1 continuation
+    cs += [H1Tempo(4, 1), H1Tempo(3, None, dt=1.0, ncalls=2), H1MeanField(3, 1), H1PtTebd(4), H1PtTebdReal(2)]
+    # H2 fault injection (tempo_hamiltonian_fault, meanfield_fault_in_compute_field: expected defects)
+    cs += [H2Tempo(3, 1), H2MeanField("before_network", 2, 1), H2MeanField("in_compute_field", 2, 1, pre=False)]
+    # H3 fixed-end methods (pt_tempo_compute_when_finished, gibbs_compute_twice: expected defects)
     cs += [H3PtTempo(q, 3, K) for q in _PT_SEQS for K in (None, 1)]
+    cs += [H3Gibbs(2, "zero"), H3Gibbs(3, "zero"), H3Gibbs(3, "sym"), H3Gibbs(4, "zero", calls=3)]
+    # H4 restart (restart_pre_control_at_restart_step: expected defect)
+    cs += [H4Restart(3, c) for c in _RESTART_CONTROLS]
+    cs += [H4RestartReal(2, 1), H4RestartReal(2, 1, controls=True), H4RestartReal(2, 1, controls="pre_at_r")]
+    if tier == "thorough":
+        cs += [H1Tempo(4, 2), H1Tempo(4, None, ncalls=2), H1Tempo(4, 1, tau_add=True), H1Tempo(5, 2, dt=1.0),
+               H1MeanField(3, None, ncalls=2), H1MeanField(4, 2, ncalls=2), H1PtTebd(5), H1PtTebdReal(3, sites=3, ptbond=2)]
+        cs += [H2Tempo(4, 2), H2Tempo(3, None), H2Tempo(4, 1, pre=False), H2MeanField("before_network", 3, 1),
+               H2MeanField("in_compute_field", 2, 1), H2MeanField("in_compute_field", 3, None, pre=False)]
+        cs += [H3PtTempo(q, 4, 2) for q in _PT_SEQS] + [H3PtTempo("compute_get_get", 5, 1)]
+        cs += [H3Gibbs(4, "sym"), H3Gibbs(5, "zero"), H3Gibbs(2, "sym", calls=3)]
+        cs += [H4Restart(5, c) for c in _RESTART_CONTROLS]
+        cs += [H4RestartReal(3, 2, sites=3, chi=2, ptbond=2, controls=True), H4RestartReal(3, 1, sites=3, chi=1, ptbond=2),
+               H4RestartReal(3, 2, sites=2, chi=2, ptbond=2, controls="pre_at_r")]
     return cs
